@@ -218,6 +218,48 @@ Definition step (sh : shape) (scr : scripts) (s : st) (lab : label) : option st 
       end
   end.
 
+(* ---- the order of the two halves of EventLoop::quit() (generated fact Gen_C04.quit_stores_before_wakeup).
+   `step` above is the order of the tree: store quit_, then wake.  `step_o false` is the other order: the first
+   half of quit() (mop MQuitStore) is then the wake-up, the second half (MQuitWake) the store.  `step_o true` is
+   `step` (C05_Proofs.step_o_true): every theorem about `step` is a theorem about the store-first order. *)
+Definition exec_mop_o (qsf : bool) (sh : shape) (scr : scripts) (who : nat) (il : bool) (m : mop) (rest : list mop)
+  (g : shared) : shared * list mop :=
+  if qsf then exec_mop sh scr who il m rest g
+  else match m with
+       | MQuitStore =>
+           if qwake sh il
+           then (mkG (pending g) (S (evfd g)) (evq g) (quit g) (calling g) (looping g) (log g ++ [EWake who]), MQuitWake :: rest)
+           else (g, MQuitWake :: rest)
+       | MQuitWake =>
+           (mkG (pending g) (evfd g) (evq g) true (calling g) (looping g) (log g ++ [EQuit who]), rest)
+       | _ => exec_mop sh scr who il m rest g
+       end.
+
+Definition step_o (qsf : bool) (sh : shape) (scr : scripts) (s : st) (lab : label) : option st :=
+  match lab with
+  | TF i =>
+      match nth_error (fcode s) i with
+      | Some (m :: rest) =>
+          let '(g', c') := exec_mop_o qsf sh scr (S i) false m rest (sg s) in
+          Some (mkSt g' (pc s) (lcode s) (lnext s) (upd (fcode s) i c'))
+      | _ => None
+      end
+  | TLoop =>
+      match pc s, lcode s with
+      | LPre, m :: rest | LHandle _, m :: rest | LRun _, m :: rest =>
+          let '(g', c') := exec_mop_o qsf sh scr 0 true m rest (sg s) in
+          Some (mkSt g' (pc s) c' (lnext s) (fcode s))
+      | _, _ => step sh scr s lab
+      end
+  | _ => step sh scr s lab
+  end.
+
+Fixpoint run_o (qsf : bool) (sh : shape) (scr : scripts) (s : st) (labs : list label) : option st :=
+  match labs with
+  | [] => Some s
+  | l :: r => match step_o qsf sh scr s l with Some s' => run_o qsf sh scr s' r | None => None end
+  end.
+
 Definition g0 : shared := mkG [] 0 [] false false false [].
 (* prefix = what the loop thread does between constructing the loop and calling loop();
    later = what it does after each return of loop() before calling loop() again (one segment per
